@@ -24,11 +24,11 @@ type c06Case struct {
 	Want string // "" = must succeed; otherwise why it must fail
 }
 
-var c06Faults = []string{"missing-method", "wrong-arity", "non-assignable-parameter", "two-methods-match", "second-match-is-another-productions-method", "orphan-method", "method-for-no-rule", "differing-return-types", "two-results", "no-result"}
+var c06Faults = []string{"missing-method", "wrong-arity", "non-assignable-parameter", "two-methods-match", "second-match-is-another-productions-method", "parameter-is-the-twin-named-type", "orphan-method", "method-for-no-rule", "differing-return-types", "two-results", "no-result"}
 
 // incompatible returns a type to which vt is not assignable.
 func incompatible(p *bind.Plan, vt string) string {
-	for _, cand := range []string{"TagInt", "*NodeB", "TagMap", "time.Duration", "[]int", "Token"} {
+	for _, cand := range []string{"TagInt", "TagInt2", "*NodeB", "TagMap", "time.Duration", "[]int", "Token"} {
 		if !p.Assignable(vt, cand) {
 			return cand
 		}
@@ -71,11 +71,34 @@ func applyFault(r *rng.R, base *bind.Plan, fault string) *bind.Plan {
 		if len(m.Params) == 0 {
 			return nil
 		}
+		i := r.Intn(len(m.Params))
 		ruleTag = "rule:" + g.Rules[m.Rule].Name
 		p.FaultWhere = []string{m.Name, ruleTag}
-		i := r.Intn(len(m.Params))
 		prod := g.Rules[m.Rule].Prods[m.Prods[0]]
 		m.Params[i] = incompatible(&p, p.ValueType(prod.Terms[i]))
+	case "parameter-is-the-twin-named-type":
+		// a term whose value is a named type, a parameter of a distinct named
+		// type with the same underlying type: identical underlying types are
+		// not assignability
+		found := false
+	twin:
+		for k := range p.Methods {
+			c := &p.Methods[k]
+			cp := g.Rules[c.Rule].Prods[c.Prods[0]]
+			for j := range c.Params {
+				vt := p.ValueType(cp.Terms[j])
+				if vt == "TagInt" || vt == "TagInt2" {
+					m = c
+					m.Params[j] = map[string]string{"TagInt": "TagInt2", "TagInt2": "TagInt"}[vt]
+					found = true
+					break twin
+				}
+			}
+		}
+		if !found {
+			return nil
+		}
+		p.FaultWhere = []string{m.Name, "rule:" + g.Rules[m.Rule].Name}
 	case "two-methods-match":
 		dup := *m
 		dup.Name = fmt.Sprintf("on_%s__dup", g.Rules[m.Rule].Name)
@@ -160,7 +183,7 @@ func applyFault(r *rng.R, base *bind.Plan, fault string) *bind.Plan {
 
 func checkC06(c *Ctx) error {
 	c.Ev = evidence.New("C06", c.Tier, c.Seed, "fault_enumeration",
-		"binding plans: a reference-LALR(1) grammar; a Go type per rule from a palette (pointers to named structs, named int, unnamed and named slice / map / func types, an interface with three implementers, generic instantiations Box[int] and *Box[string], imported *big.Int and time.Duration, any); per production the parameter types of its action method, each either the term's exact value type or a wider type the value type is assignable to (any, an interface it implements, the named/unnamed counterpart with the same underlying type, a named list type for sugar lists); productions of a rule with identical signatures share their method; method names with and without __suffix. Assignability is decided by the Go type checker on the harness prelude, and the expected verdict by an executable statement of the documented binding rule. Every plan is run well-formed (lox must succeed, the package must compile, and on sentences every action parameter must carry exactly the node of its term: the recorded action log is compared call by call with the prescribed one, as in C03) and with one layout fault at a time: missing method, wrong arity, non-assignable parameter, two methods matching one production (a duplicate, or the widened method of another production of the rule), orphan on_ method, method for no rule, differing return types, two results, no result (lox must fail and name the production or method). Non-trivial: well-formed plans with at least one widened parameter, and every faulted plan; distinct by grammar+harness text.")
+		"binding plans: a reference-LALR(1) grammar; a Go type per rule from a palette (pointers to named structs, two distinct named int types, unnamed and named slice / map / func types, an interface with three implementers, generic instantiations Box[int] and *Box[string], imported *big.Int and time.Duration, any); per production the parameter types of its action method, each either the term's exact value type or a wider type the value type is assignable to (any, an interface it implements, the named/unnamed counterpart with the same underlying type, a named list type for sugar lists); productions of a rule with identical signatures share their method; method names with and without __suffix. Assignability is decided by the Go type checker on the harness prelude, and the expected verdict by an executable statement of the documented binding rule. Every plan is run well-formed (lox must succeed, the package must compile, and on sentences every action parameter must carry exactly the node of its term: the recorded action log is compared call by call with the prescribed one, as in C03) and with one layout fault at a time: missing method, wrong arity, non-assignable parameter (also: a distinct named type with the same underlying type), two methods matching one production (a duplicate, or the widened method of another production of the rule), orphan on_ method, method for no rule, differing return types, two results, no result (lox must fail and name the production or method). Non-trivial: well-formed plans with at least one widened parameter, and every faulted plan; distinct by grammar+harness text.")
 	c.Ev.Assumptions = []string{
 		"assignability as computed by go/types on the harness prelude",
 		"`x*!` is not used here (its element types would need a Discard method)",
@@ -212,8 +235,11 @@ func checkC06(c *Ctx) error {
 			}
 			cases = append(cases, mk(plan, ""))
 			// one or two faulted variants of the same plan
-			for k := 0; k < 3; k++ {
+			for k := 0; k < 4; k++ {
 				f := c06Faults[r.Intn(len(c06Faults))]
+				if k == 3 {
+					f = "parameter-is-the-twin-named-type"
+				}
 				if k == 2 {
 					// needs a particular layout (two methods of one rule with
 					// as many parameters): tried on every plan
